@@ -319,6 +319,7 @@ type Job struct {
 	Twice      bool   // compile the program itself twice on the instance, keep the second
 	SlowSSA    bool   // the SSA listing goes to a writer that blocks (concurrent cases)
 	CPUs       int    // > 0: the job stands for a compilation on a host with that many CPUs
+	Retain     bool   // the compiled circuit is marshalled again after another compilation on the instance
 	MapSeed    uint64 // child processes: seed of the map-order stream
 }
 
@@ -387,6 +388,20 @@ func ioDesc(c *circuit.Circuit) string {
 	rec(c.Outputs)
 	return sb.String()
 }
+
+// retainSrc is compiled after the program under comparison in jobs with Retain.
+const retainSrc = `package main
+
+import (
+	"encoding/hex"
+)
+
+func main(a, b [4]byte) []byte {
+	s := hex.EncodeToString(a[:])
+	t := hex.EncodeToString(b[:])
+	return []byte(s + t)
+}
+`
 
 // selfSrc as a history source stands for the job's own program.
 const selfSrc = "\x00self"
@@ -480,6 +495,20 @@ func RunJob(j Job, keepSSA bool) (a Artefacts) {
 	}
 	circ.MarshalBristol(&bb)
 	a.Circ, a.Bristol, a.SSA, a.IO, a.Gates = sum(mb.Bytes()), sum(bb.Bytes()), sum(ssa.Bytes()), ioDesc(circ), circ.NumGates
+	if j.Retain {
+		// the caller keeps the compiled circuit while the same Compiler compiles something else: the
+		// circuit it holds must still be the circuit it was given
+		func() {
+			defer func() { recover() }()
+			_, c3 := mk()
+			c3.Compile(retainSrc, [][]int{{64}, {64}})
+		}()
+		var again bytes.Buffer
+		if err := circ.Marshal(&again); err != nil || sum(again.Bytes()) != a.Circ || ioDesc(circ) != a.IO {
+			a.Circ = "changed-after-return:" + sum(again.Bytes())
+		}
+		rt.Reach("job.circuit-kept-across-another-compilation")
+	}
 	if keepSSA {
 		a.SSAText = ssa.String()
 	}
@@ -602,6 +631,7 @@ func (w *world) Run(t *rt.Tape, trace bool) *core.Result {
 			j.SameParams = t.Choose(rt.SGen, 2) == 1
 			j.Twice = t.Choose(rt.SGen, 4) == 0
 		}
+		j.Retain = t.Choose(rt.SGen, 4) == 0
 		if t.Choose(rt.SGen, 2) == 0 {
 			// "two parties that compile independently": another host, another CPU count
 			j.CPUs = rt.CPUChoice(t)
